@@ -107,32 +107,32 @@ func (s *pSuite) rawDec(lo0, hi1 bool) sdkmath.LegacyDec {
 	r := s.r
 	_ = lo0
 	_ = hi1
-	switch r.Intn(16) {
+	switch r.Intn(22) {
 	case 0:
 		return sdkmath.LegacyDec{} // nil
-	case 1:
+	case 1, 2:
 		return decOf(sdkmath.NewInt(-1))
-	case 2:
+	case 3, 4:
 		return sdkmath.LegacyZeroDec()
-	case 3:
-		return sdkmath.LegacySmallestDec()
-	case 4:
-		return decOf(one18.SubRaw(1))
 	case 5:
+		return sdkmath.LegacySmallestDec()
+	case 6, 7:
+		return decOf(one18.SubRaw(1))
+	case 8, 9, 10:
 		return sdkmath.LegacyOneDec()
-	case 6:
+	case 11, 12:
 		return decOf(one18.AddRaw(1))
-	case 7:
+	case 13:
 		return sdkmath.LegacyNewDec(2)
-	case 8:
+	case 14:
 		return sdkmath.LegacyNewDecFromBigIntWithPrec(new(big.Int).Lsh(big.NewInt(1), 300), 18)
-	case 9:
+	case 15:
 		return sdkmath.LegacyNewDecFromBigIntWithPrec(new(big.Int).Neg(new(big.Int).Lsh(big.NewInt(1), 300)), 18)
-	case 10:
+	case 16:
 		return sdkmath.LegacyNewDecWithPrec(3, 3)
-	case 11:
+	case 17:
 		return sdkmath.LegacyNewDecWithPrec(5, 1)
-	case 12:
+	case 18:
 		return decOf(r.Big(70).Mod(one18).Neg())
 	default:
 		return decOf(r.Big(70).Mod(one18))
@@ -349,12 +349,15 @@ func (s *pSuite) opCoinswap() {
 	if r.Intn(3) == 0 {
 		p = coinswaptypes.DefaultParams()
 	}
-	eb := 0 // edge bias of each field: one or two fields per message get values from the full edge pool
+	// at most one field per message (none in a third of them) takes its value from the full edge pool
+	edgeField := r.Intn(8)
+	fld := 0
 	pick := func() int {
-		if r.Intn(3) == 0 {
-			return 70
+		fld++
+		if fld == edgeField {
+			return 85
 		}
-		return eb
+		return 0
 	}
 	p.Fee = s.unitDec(pick())
 	p.TaxRate = s.unitDec(pick())
@@ -379,9 +382,12 @@ func (s *pSuite) opErc20() {
 func (s *pSuite) opInflation() {
 	r := s.r
 	p := inflationtypes.DefaultParams()
+	edgeField := r.Intn(11)
+	fld := 0
 	pick := func() int {
-		if r.Intn(4) == 0 {
-			return 75
+		fld++
+		if fld == edgeField {
+			return 85
 		}
 		return 0
 	}
@@ -409,7 +415,7 @@ func (s *pSuite) opInflation() {
 	e.MaxVariance = s.unitDec(pick())
 	d := &p.InflationDistribution
 	x := s.unitDec(0)
-	switch r.Intn(12) {
+	switch r.Intn(20) {
 	case 0:
 		d.StakingRewards, d.CommunityPool = sdkmath.LegacyOneDec(), sdkmath.LegacyZeroDec()
 	case 1:
@@ -778,7 +784,7 @@ func runParams(seed uint64, nOps int, outPath string) map[string]int {
 		now := time.Unix(1_700_000_000+int64(s.r.Intn(1000)), 0).UTC()
 		fund := sdk.NewCoins(sdk.NewCoin("stake", pow2(100)), sdk.NewCoin("acanto", pow2(100)))
 		s.coins = nil
-		for i := 0; i < 6; i++ {
+		for i := 0; i < 9; i++ {
 			d := fmt.Sprintf("acoin%c", 'a'+i)
 			s.coins = append(s.coins, d)
 			fund = fund.Add(sdk.NewCoin(d, pow2(80)))
@@ -786,7 +792,7 @@ func runParams(seed uint64, nOps int, outPath string) map[string]int {
 		s.w = NewEvmWorld(3, fund, now, byte(s.world))
 		s.regd, s.tokens = nil, nil
 		// a few deployed, unregistered ERC-20 contracts (deployed by the erc20 module account, as RegisterCoin does)
-		for i := 0; i < 4; i++ {
+		for i := 0; i < 8; i++ {
 			md := coinMeta(fmt.Sprintf("atok%c", 'a'+i))
 			addr, err := s.w.App.Erc20Keeper.DeployERC20Contract(s.w.Ctx, md)
 			if err != nil {
